@@ -161,7 +161,7 @@ def rule_frame(facts):
 
 def rule_files(facts):
     r = RuleResult("C11-FILES", "files → partitions by skip(partition index).step_by(partition count)", floor=4)
-    for rec in facts.all_fns(["glaredb_core", "glaredb_ext_parquet", "glaredb_ext_csv", "glaredb_ext_iceberg", "glaredb_ext_delta"]):
+    for rec in facts.all_fns(["glaredb_core", "glaredb_ext_parquet", "glaredb_ext_csv", "glaredb_ext_iceberg", "glaredb_ext_delta"], contains="step_by"):
         if "step_by" not in str(rec["bbs"]) or "create_pull_partition_states" not in rec["id"]:
             continue
         fn = Fn(rec)
